@@ -223,6 +223,7 @@ let okey = function Some k -> zi k | None -> "?"
 let oval = function Some v -> zi v | None -> "?"
 
 type lstate = LRr of (z, z) rrl | LLru of bool * (z, z) lrul | LFifo of (z, z) fifol
+            | LLfuda of (z, z) lfdl | LTtl of bool * (z, z) ttll | LUm of (z, z) uml
 
 let dump_l = function
   | LRr s ->
@@ -252,6 +253,55 @@ let dump_l = function
         | Some { fc_keyed = Some k; fc_val = v } -> [Printf.sprintf "%d:%s:%s" (int_of_nat n) (zi k) (oval v)]
         | _ -> []) s.fl_list)
 
+let it_s = function It n -> string_of_int (int_of_nat n) | End -> "E"
+let rec take_until_end l e = match l with
+  | [] -> []
+  | x :: r -> (match e with It n when n = x -> [] | _ -> x :: take_until_end r e)
+
+let dump_l2 = function
+  | LLfuda s ->
+    let ix = sorted_index s.dl_index in
+    "W used=" ^ string_of_int (int_of_nat s.dl_used) ^ " list=" ^ nats s.dl_list ^ " end=" ^ it_s s.dl_end
+    ^ " index=" ^ String.concat "," (List.map (fun (k, n) -> Printf.sprintf "%d:%d" k n) ix)
+    ^ " mm=" ^ String.concat "," (List.map (fun (c, n) -> Printf.sprintf "%d:%d" (int_of_nat c) (int_of_nat n)) s.dl_mm)
+    ^ " cells=" ^ String.concat "," (List.map (fun n ->
+        match nth_opt s.dl_cells (int_of_nat n) with
+        | Some c -> Printf.sprintf "%d:%s:%s:%s:%s" (int_of_nat n) (okey c.dc_keyed)
+                      (match c.dc_lfu with Some x -> string_of_int (int_of_nat x) | None -> "?") (zi c.dc_age) (oval c.dc_val)
+        | None -> "?") (take_until_end s.dl_list s.dl_end))
+  | LTtl (u, s) ->
+    let ix = sorted_index s.tt_index in
+    "W used=" ^ string_of_int (int_of_nat s.tt_used) ^ (if u then " ttl=" ^ zi s.tt_ttl else "")
+    ^ " list=" ^ nats s.tt_list ^ " end=" ^ it_s s.tt_end
+    ^ " index=" ^ String.concat "," (List.map (fun (k, n) -> Printf.sprintf "%d:%d" k n) ix)
+    ^ " ord=" ^ String.concat "," (List.map (fun (z, n) -> Printf.sprintf "%s:%d" (zi z) (int_of_nat n)) s.tt_ord)
+    ^ " elems=" ^ String.concat "," (List.map (fun (_, n) ->
+        match nth_opt s.tt_elems n with
+        | Some e -> Printf.sprintf "%d:%s:%s:%s:%s:%s" n (okey e.te_keyed) (zi e.te_expire)
+                      (match e.te_lru with Some i -> it_s i | None -> "?")
+                      (match e.te_ttl with Some x -> string_of_int (int_of_nat x) | None -> "?") (oval e.te_val)
+        | None -> "?") ix)
+  | LUm s ->
+    (* nodes are named by their current position in the list (the harness cannot name them otherwise:
+       addresses of destroyed nodes are re-used) *)
+    let pos n = let rec go i = function [] -> -1 | x :: r -> if x = n then i else go (i + 1) r in go 0 s.ul_list in
+    let mp = List.sort compare (List.map (fun (k, (v, tp)) -> (int_of_z k, int_of_z v, tp)) s.ul_map) in
+    "W size=" ^ string_of_int (List.length s.ul_map) ^ " list=" ^ String.concat "," (List.mapi (fun i _ -> string_of_int i) s.ul_list)
+    ^ " map=" ^ String.concat "," (List.map (fun (k, v, tp) ->
+        Printf.sprintf "%d:%d:%s" k v (match tp with Some n -> string_of_int (pos n) | None -> "?")) mp)
+    ^ " nodes=" ^ String.concat "," (List.map (fun n ->
+        match List.assoc_opt n s.ul_nodes with
+        | Some t -> Printf.sprintf "%d:%s:%s" (pos n) (zi t.tn_expire) (zi t.tn_keyed)
+        | None -> "?") s.ul_list)
+  | x -> dump_l x
+
+let l_init_cfg (c : case) = match c.kind with
+  | 5 -> LLfuda (zl_lfuda_init (nat_of_int c.cap) (z_of_int c.tick) (nat_of_int c.rnum) (nat_of_int c.rk))
+  | 6 -> LTtl (false, zl_ttl_init (nat_of_int c.cap) Z0)
+  | 7 -> LTtl (true, zl_ttl_init (nat_of_int c.cap) (z_of_int c.ttl))
+  | 8 | 9 -> LUm (zl_um_init (z_of_int c.ttl))
+  | _ -> failwith "l_init_cfg"
+
 let l_init kind cap = match kind with
   | 3 -> LRr (zl_rr_init (nat_of_int cap))
   | 0 -> LLru (false, zl_lru_init (nat_of_int cap))
@@ -263,12 +313,15 @@ let l_step st o now rnd = match st with
   | LRr s -> (match zl_rr_step s o now rnd with Ok (s', r) -> Ok (LRr s', r) | UB w -> UB w)
   | LLru (m, s) -> (match zl_lru_step m s o now rnd with Ok (s', r) -> Ok (LLru (m, s'), r) | UB w -> UB w)
   | LFifo s -> (match zl_fifo_step s o now rnd with Ok (s', r) -> Ok (LFifo s', r) | UB w -> UB w)
+  | LLfuda s -> (match zl_lfuda_step s o now rnd with Ok (s', r) -> Ok (LLfuda s', r) | UB w -> UB w)
+  | LTtl (u, s) -> (match zl_ttl_step u s o now rnd with Ok (s', r) -> Ok (LTtl (u, s'), r) | UB w -> UB w)
+  | LUm s -> (match zl_um_step s o now rnd with Ok (s', r) -> Ok (LUm s', r) | UB w -> UB w)
 
 (* impl: for every op two lines (result, W dump); probes produce nothing *)
 let run_case_wb (c : case) (impl : string array) : (int * string * string * string) option * int =
   let ops = List.filter_map (function LOp (now, o, raw) -> Some (now, o, raw) | LProbe _ -> None) c.lines in
   let get i = if i < Array.length impl then impl.(i) else "<missing>" in
-  let st = ref (l_init c.kind c.cap) in
+  let st = ref (if c.kind >= 5 then l_init_cfg c else l_init c.kind c.cap) in
   let res = ref None in
   let i = ref 0 in
   List.iter (fun (now, o, raw) ->
@@ -280,7 +333,7 @@ let run_case_wb (c : case) (impl : string array) : (int * string * string * stri
             if !ok = None then
               match l_step !st o znow (List.map nat_of_int d) with
               | Ok (st', r) ->
-                let m = fmt_ret r and w = dump_l st' in
+                let m = fmt_ret r and w = dump_l2 st' in
                 if !first = None then first := Some (m, w);
                 if m = get (2 * !i) && w = get (2 * !i + 1) then ok := Some st'
               | UB why -> if !first = None then first := Some ("UB: " ^ coq_string why, "")) cands;
